@@ -71,7 +71,22 @@ def make_config(root, sp, qp, pkg, options=None):
     if qp:
         sec["queries_path"] = qp
     sec.update(options or {})
+    if sec.get("remote_schema_url"):
+        sec.pop("schema_path", None)
     return {"tool": {"ariadne-codegen": sec}}
+
+
+def serve_introspection(schema_text):
+    """Replace httpx.post as seen from ariadne_codegen.schema by graphql-core executing the received query on the SDL."""
+    import httpx
+    from graphql import build_schema, graphql_sync
+    import ariadne_codegen.schema as acs
+    schema = build_schema(schema_text)
+
+    def fake_post(url, json=None, headers=None, verify=True, **kw):
+        res = graphql_sync(schema, json["query"])
+        return httpx.Response(200, json={"data": res.data})
+    acs.httpx.post = fake_post
 
 
 def generate(root, schema, queries, options=None, files=None, pkg=None):
